@@ -226,8 +226,8 @@ pub enum Pay {
     /// 64 bytes, 64-byte aligned, tagged
     PA64,
     /// 8 200 bytes, tagged: beyond any page-sized "large message" threshold.  Not a member of
-    /// the profile lists: a case whose class decodes to PBIG becomes PHUGE when bit 7 of the
-    /// salt byte is set (so existing cases keep their decoding and shrinking leads to PBIG)
+    /// the profile lists: a case whose class decodes to PBIG becomes PHUGE when bits 7 and 3 of the
+    /// salt byte are set (so existing cases keep their decoding and shrinking leads to PBIG)
     PHUGE,
     /// 3, 5, 6, 7 bytes (alignment 1), tagged like P1.  Not members of the profile lists either:
     /// a case whose class decodes to P4 becomes one of them by bits 5-6 of the salt byte
@@ -364,7 +364,8 @@ impl Case {
         let parallelism = parallelism_of(self.cfg[1]);
         let mut pay = p.pays[(self.cfg[2] as usize * p.pays.len()) >> 8];
         if !p.first_gen {
-            if pay == Pay::PBIG && self.cfg[5] & 0x80 != 0 {
+            // (one PBIG case in four: the race detector keeps a shadow cell per payload byte)
+            if pay == Pay::PBIG && self.cfg[5] & 0x88 == 0x88 {
                 pay = Pay::PHUGE;
             }
             if pay == Pay::P4 {
